@@ -23,6 +23,7 @@ package c16
 import (
 	"bytes"
 	"context"
+	"encoding/hex"
 	"errors"
 	"fmt"
 	"math/rand/v2"
@@ -59,7 +60,8 @@ type auditStats struct {
 	concBatches, concCalls, concNames, concReads int
 	edgeOdd, edgeOddForced, edgeEnc, edgeSplit   int
 	edgeSpelled, edgeSpelledConf, edgeSibling    int
-	evAgain, evAgainKept                         int // later runs judged (of these: from a kept endorse.Context)
+	evAgain, evAgainKept                         int          // later runs judged (of these: from a kept endorse.Context)
+	straceBatch                                  []straceCase // edge confine cases under the canonical root, repeated under strace in the thorough tier
 }
 
 // ---- helpers on precCase ----
@@ -779,6 +781,9 @@ func runEdgeConfine(c *core.Ctx, w *confWorld, i, k int, r *rand.Rand, st *audit
 		return
 	}
 	res := w.judge(c, i, entryReadVar, gen, cc, out, err)
+	if how == "canonical" {
+		st.straceBatch = append(st.straceBatch, straceCase{I: i, GUID: hex.EncodeToString(cc.guid[:]), Name: hex.EncodeToString(nameBytes), Label: cc.label})
+	}
 	if sib {
 		st.edgeSibling++
 	} else if strings.HasPrefix(res, "inside") {
